@@ -362,9 +362,16 @@ def check(ctx):
     mt = ctx.c.tu('girepository/girmodule.c')
     mb = mt.func('_g_ir_module_build_typelib')
     wsep = None
-    for c in C.calls(mb, ('g_string_append_c', 'g_string_append')):
+    # the joining code may sit in a static helper of girmodule.c (e.g. serialize_dependencies): follow calls from the builder
+    bodies = [(mb, False)]
+    for c in C.calls(mb):
+        cn_ = C.callee(c)
+        if cn_ in mt.functions and cn_ != '_g_ir_module_build_typelib' and 'depend' in cn_:
+            bodies.append((mt.functions[cn_], True))
+    for fb, whole in bodies:
+      for c in C.calls(fb, ('g_string_append_c', 'g_string_append')):
         a = C.call_args(c)
-        if C.declref(a[0]) == 'dependencies_glob' or 'dependencies' in (C.declref(a[0]) or ''):
+        if whole or C.declref(a[0]) == 'dependencies_glob' or 'dependencies' in (C.declref(a[0]) or ''):
             s = C.strip(a[1])
             if s.get('kind') == 'CharacterLiteral':
                 wsep = chr(s.get('value'))
@@ -372,7 +379,8 @@ def check(ctx):
                 wsep = C.string_value(s)
     if wsep is None:
         # g_strjoinv ("|", dependencies)
-        for c in C.calls(mb, 'g_strjoinv'):
-            wsep = C.string_value(C.call_args(c)[0])
+        for fb, whole in bodies:
+            for c in C.calls(fb, 'g_strjoinv'):
+                wsep = C.string_value(C.call_args(c)[0])
     r4.check(sep == [wsep] and wsep is not None, 'dependency separator: compiler writes what the loader splits on', REL, tu.line(gd),
              'loader splits the dependency string on %s but the compiler joins with %r' % (sep, wsep), detail={'split': sep, 'join': wsep})
